@@ -4,6 +4,7 @@
 import TinyHttpModel.Req
 import TinyHttpModel.WireSpec
 import TinyHttpModel.Lemmas.Ahead
+import TinyHttpModel.Lts.Par
 
 namespace TH.Props.C11
 open TH TH.Req
@@ -66,6 +67,47 @@ example : (aheadLoop 10 b!"GET /a HTTP/1.1\r\n\r\nPOST /b HTTP/1.1\r\nContent-Le
     = [b!"/a", b!"/b", b!"/c"] := by decide
 example : (aheadLoop 10 b!"POST /b HTTP/1.1\r\nContent-Length: 2000\r\n\r\nabcGET /c HTTP/1.1\r\n\r\n" .open)
     = ([⟨⟨b!"POST"⟩, b!"/b", ⟨1, 1⟩, [⟨b!"Content-Length", b!"2000"⟩]⟩], .blockedOnBody) := by decide
+
+/-! ### the same on the connection with concurrent handlers (`Lts.Par`) -/
+
+/-- a body that was buffered at parse time, or is absent, never owns the client stream. -/
+theorem small_body_never_owns_stream (k : BodyKind) (bs : Bytes)
+    (hk : k = .empty ∨ ∃ n, k = .buffered n) : (initialBody k bs).1.holdsStream = false := by
+  rcases hk with h | ⟨n, h⟩ <;> subst h <;> rfl
+
+/-- …and every other kind of body does, from the moment the request is created. -/
+theorem streamed_body_owns_stream (k : BodyKind) (bs : Bytes)
+    (hk : k ≠ .empty ∧ ∀ n, k ≠ .buffered n) : (initialBody k bs).1.holdsStream = true := by
+  cases k with
+  | empty => exact absurd rfl hk.1
+  | buffered n => exact absurd rfl (hk.2 n)
+  | upgrade => rfl
+  | limited n => rfl
+  | chunked => rfl
+
+/-- Read-ahead under concurrency: whatever the handlers have or have not done with the requests
+    they hold — nothing answered, nothing read — the connection thread can parse the next head as
+    long as no live request's body owns the stream (all bodies so far absent or at most 1024
+    bytes) and it is not itself busy answering. -/
+theorem par_parse_enabled (s : Lts.Par.State) (hp : s.parserEnd = none)
+    (hh : Lts.Par.streamHeld s = false) (hc : Lts.Par.connBusy s = false) :
+    (Lts.Par.step s .parse).isSome = true := by
+  simp [Lts.Par.step, hp, hh, hc]
+
+/-- the stream is held only by a request that is still alive and whose reader owns it: once
+    every such request is gone, parsing goes on. -/
+theorem par_stream_free_when_owners_gone (s : Lts.Par.State)
+    (h : ∀ r ∈ s.reqs, r.body.holdsStream = true → r.stage = .gone) : Lts.Par.streamHeld s = false := by
+  unfold Lts.Par.streamHeld
+  rw [List.any_eq_false]
+  intro r hr
+  cases hb : r.body.holdsStream with
+  | false => simp
+  | true => simp [h r hr hb]
+
+example : (Lts.Par.run (Lts.Par.init b!"GET /a HTTP/1.1\r\n\r\nPOST /b HTTP/1.1\r\nContent-Length: 2\r\n\r\nhiGET /c HTTP/1.1\r\n\r\n" .eof
+      (fun _ => ⟨0, 0, 1, .drop, false⟩)) [.parse, .parse, .parse]).map (fun s => (s.reqs.length, s.reqs.map (·.stage)))
+    = some (3, [.fresh, .fresh, .fresh]) := by decide
 
 end TH.Props.C11
 
